@@ -279,6 +279,10 @@ def run(ctx):
               "histograms of different dimension are not refused before the first write", ia.where)
     ctx.check(incompatible, "C05.e", "HistogramBase.__iadd__:incompatible-bins", "different bins without adaptivity refused before any write",
               "incompatible non-adaptive bins are not refused before the first write", ia.where)
+    # the refusal of non-histogram operands depends on the flag being restored when a free-arithmetics block is left,
+    # also by an exception (shared with C19.b)
+    from rules import c19
+    c19.check_scope_restore(ctx, "C05.e", m)
     hs = HB.methods.get("has_same_bins")
     ctx.saw(hs)
     txt = U(hs.node)
